@@ -153,13 +153,22 @@ def check_metropolis(ctx):
         seed = rng.randrange(2**31)
         n, w = rng.randint(1, 200), rng.randint(0, 20)
         sigma = np.array([rng.choice([0.3, 1.0, 2.5]) for _ in range(d)])
-        x0 = np.full(d, 0.2)
-        case = dict(kind='real', target=name, d=d, seed=seed, n=n, warmup=w, sigma=sigma.tolist())
+        # the initial point as a user may well hand it over: float64, an integer array (a grid point), single precision - the chain is
+        # the algorithm's chain of real-valued states whatever the dtype of the start
+        init = ['float64', 'int64', 'float32'][it % 3] if it >= 3 else 'float64'
+        if init == 'int64':
+            x0 = (np.zeros(d, dtype=np.int64) if name in ('gauss', 'box', 'nanpocket') else np.ones(d, dtype=np.int64))
+        elif init == 'float32':
+            x0 = np.full(d, 0.25, dtype=np.float32)
+        else:
+            x0 = np.full(d, 0.2)
+        ctx.count('metro.real.init_dtype', init)
+        case = dict(kind='real', target=name, d=d, seed=seed, n=n, warmup=w, sigma=sigma.tolist(), init=init, x0=x0.tolist())
         tgt = TARGETS[name]
         with np.errstate(all='ignore'):
             out = mcmc.metropolis(n, x0, tgt, sigma, warmup=w, seed=seed)
             out2 = mcmc.metropolis(n, x0, tgt, sigma, warmup=w, seed=seed)
-            ref = reference_metropolis(n, x0, tgt, sigma, w, np.random.RandomState(seed))
+            ref = reference_metropolis(n, x0.astype(np.float64), tgt, sigma, w, np.random.RandomState(seed))
         ctx.case(case, n >= 5)
         ctx.count('metro.real.target', name)
         if out.shape != (n, d) or not np.array_equal(out, ref):
@@ -300,6 +309,21 @@ def check_nuts(ctx):
         ctx.count('nuts.target', name)
         if samples.shape != (n_iter, d):
             ctx.fail_input(case, 'nuts returned %s states, %d requested' % (samples.shape, n_iter), n_iter, list(samples.shape))
+        if it < 4:
+            # the same start handed over as an integer array / in single precision: same real-valued chain
+            with np.errstate(all='ignore'):
+                try:
+                    xs = np.full(d, 0.5)
+                    a64 = mcmc.nuts(30, xs, TARGETS[name], GRADS[name], n_adapt=10, max_depth=3, seed=seed)
+                    a32 = mcmc.nuts(30, xs.astype(np.float32), TARGETS[name], GRADS[name], n_adapt=10, max_depth=3, seed=seed)
+                    i64 = mcmc.nuts(30, np.zeros(d), TARGETS['gauss'], GRADS['gauss'], n_adapt=10, max_depth=3, seed=seed)
+                    iint = mcmc.nuts(30, np.zeros(d, dtype=np.int64), TARGETS['gauss'], GRADS['gauss'], n_adapt=10, max_depth=3, seed=seed)
+                    ctx.count('nuts.init_dtype', 'float32+int64')
+                    if not np.allclose(a64, a32, rtol=0, atol=1e-6) or not np.array_equal(i64, iint):
+                        ctx.fail_input(dict(case, init='float32/int64 start'), 'nuts started from the same point given in another dtype returns another chain '
+                                       '(states stored in the precision of the start)', i64[:4].tolist(), iint[:4].tolist())
+                except (ValueError, SystemExit, TypeError) as e:
+                    ctx.count('nuts.init_dtype_failed', type(e).__name__)
         if not np.array_equal(samples, again):
             ctx.fail_input(case, 'nuts is not deterministic in its seed')
         vals = [tgt(x) for x in samples]
@@ -382,8 +406,9 @@ def replay(ctx, case):
     if case['kind'] == 'real':
         tgt = TARGETS[case['target']]
         with np.errstate(all='ignore'):
-            out = mcmc.metropolis(case['n'], np.full(case['d'], 0.2), tgt, np.array(case['sigma']), warmup=case['warmup'], seed=case['seed'])
-            ref = reference_metropolis(case['n'], np.full(case['d'], 0.2), tgt, np.array(case['sigma']), case['warmup'], np.random.RandomState(case['seed']))
+            x0 = np.array(case['x0'], dtype=case.get('init', 'float64')) if 'x0' in case else np.full(case['d'], 0.2)
+            out = mcmc.metropolis(case['n'], x0, tgt, np.array(case['sigma']), warmup=case['warmup'], seed=case['seed'])
+            ref = reference_metropolis(case['n'], x0.astype(np.float64), tgt, np.array(case['sigma']), case['warmup'], np.random.RandomState(case['seed']))
         if not np.array_equal(out, ref):
             ctx.fail_input(case, 'metropolis output differs from the independently written chain')
         return dict(first=out[:5].tolist(), reference=ref[:5].tolist())
